@@ -31,7 +31,7 @@ ASSUMPTIONS = [
 ]
 BUDGET = {
     "quick": {"examples": 36, "wall_s": 110, "shards": 4},
-    "thorough": {"examples": 400, "wall_s": 1500, "shards": 16},
+    "thorough": {"examples": 800, "wall_s": 1500, "shards": 16},
 }
 CASE_TIMEOUT_S = 240
 
